@@ -5,13 +5,13 @@ import random
 from vf import Inconclusive, parallel, require_clean, validate_traces, trace_slice, vfj_lines, b2s
 
 CLAIM = {
-    "text": "TLC exhaustively checks implementation-shaped models of both follow readers (FollowNotify: read-until-empty, select over the two coalescing 1-buffered signals, fsnotify/watcher goroutines, the delete branch as repaired; FollowPoll: read attempts, stat, size vs readBytes, seek or restart) against the abstract Follow specification for every interleaving of up to 3-4 appends, 1-2 removals-after-drain and 1-2 re-creations with all reader/watcher steps x {reopen} x {tail}: delivered stream always a prefix of the expected one (no loss, duplication, reordering), no EOF while the file exists, the poll side condition in its exact and its observable form, refinement, no lost wake-up, and liveness (quiet environment ~> everything delivered / stream ended) under weak fairness. Histories enumerated by TLC with the specification's expected stream are executed on real files with the real followreader.New (notify and poll), the harness placing Read calls before/while/after the operations; every execution, seeded random multi-cycle histories and end-to-end runs through batchers.TailFilesToChan and `rare filter -f/-F` are recorded and validated by TLC against Follow.tla.",
-    "note": "Bounded: exhaustive only within the listed history bounds; real timing is sampled, not enumerated (each history is executed a few times; which signal select takes is up to the Go runtime). Liveness on the real code means 'within 10 s, repeated on re-run'. Trusted: fsnotify/inotify (modelled as in-order events, write/create dropped when the path is absent), the OS file system, TLC. Rename-based rotation, truncation and removal of undelivered data are outside the property's histories and not checked.",
+    "text": "TLC exhaustively checks implementation-shaped models of both follow readers (FollowNotify: read-until-empty, select over the two coalescing 1-buffered signals, fsnotify/watcher goroutines, the delete branch as repaired; FollowPoll: read attempts, stat, size vs readBytes, a re-open block that replaces the handle - a new handle stands at offset 0 - and seeks it to readBytes or restarts; 1, 2, 3 and 5 read attempts per round, also on a file that stays in place and merely grew between the last read attempt and the stat, with the law that the reader's count is the offset of the handle it reads from; controls: a resume-seek that does not reach the new handle, or resumes at the stat'ed size, is refuted) against the abstract Follow specification for every interleaving of up to 3-4 appends, 1-2 removals-after-drain and 1-2 re-creations with all reader/watcher steps x {reopen} x {tail}: delivered stream always a prefix of the expected one (no loss, duplication, reordering), no EOF while the file exists, the poll side condition in its exact and its observable form, refinement, no lost wake-up, and liveness (quiet environment ~> everything delivered / stream ended) under weak fairness. Histories enumerated by TLC with the specification's expected stream are executed on real files with the real followreader.New (notify and poll), the harness placing Read calls before/while/after the operations; for the poller TLC also enumerates the PHASE of the polling round at which every operation lands (after the k-th empty read attempt, k = ReadAttempts being the window before the stat; FollowPoll_Gen) and the harness imposes it by timing on a free-running reader with PollDelay/ReadAttempts set from the vector, and end to end with the production 5 x 250 ms; every execution, seeded random multi-cycle histories and end-to-end runs through batchers.TailFilesToChan and `rare filter -f/-F` are recorded and validated by TLC against Follow.tla.",
+    "note": "Bounded: exhaustive only within the listed history bounds; real timing is sampled, not enumerated, for the inotify reader (each history is executed a few times; which signal select takes is up to the Go runtime); for the poller the phase of the round is imposed by sleeping (20 ms delays, operations mid-sleep), so a phase can be missed under load - that costs coverage, never a false alarm, and the hit rate is measured (re-opens of the path seen through inotify IN_OPEN); the few microseconds between the stat and the open cannot be targeted (model only). Liveness on the real code means 'within 10 s, repeated on re-run'. Trusted: fsnotify/inotify (modelled as in-order events, write/create dropped when the path is absent), the OS file system, TLC. Rename-based rotation, truncation and removal of undelivered data are outside the property's histories and not checked.",
     "technique": "TLA+ refinement + liveness model checking (TLC) + model-history replay on real files + trace validation",
 }
 
 NOTIFY_INV = "TypeOK PrefixOK NoEarlyEnd NoDomLoss NoLostWakeup"
-POLL_INV = "TypeOK PrefixOK NoEarlyEnd DomImplies PrefixOKP NoEarlyEndP"
+POLL_INV = "TypeOK PrefixOK NoEarlyEnd DomImplies PrefixOKP NoEarlyEndP HandleOK InPlaceExact"
 
 
 def b(x):
@@ -25,11 +25,20 @@ def notify_cfg(reopen, tail, apps, cycles, lens="{1, 2}", branch="samefile", inv
                 ("PROPERTIES %s\n" % props) if props else ""))
 
 
-def poll_cfg(reopen, tail, apps, cycles, lens="{1, 2}", attempts=2, invs=POLL_INV, props="Refines Live LiveP", initlen=1):
+def poll_cfg(reopen, tail, apps, cycles, lens="{1, 2}", attempts=2, invs=POLL_INV, props="Refines Live LiveP", initlen=1,
+             resume="readBytes", buf=2):
     return ("SPECIFICATION Spec\nCONSTANTS Reopen = %s\n TailMode = %s\n InitLen = %d\n AppLens = %s\n MaxAppends = %d\n"
-            " MaxRemoves = %d\n MaxCreates = %d\n BufSize = 2\n ReadAttempts = %d\nINVARIANTS %s\n%sCHECK_DEADLOCK FALSE\n" % (
-                b(reopen), b(tail), initlen, lens, apps, cycles, cycles, attempts, invs,
+            " MaxRemoves = %d\n MaxCreates = %d\n BufSize = %d\n ReadAttempts = %d\n Resume = \"%s\"\nINVARIANTS %s\n%sCHECK_DEADLOCK FALSE\n" % (
+                b(reopen), b(tail), initlen, lens, apps, cycles, cycles, buf, attempts, resume, invs,
                 ("PROPERTIES %s\n" % props) if props else ""))
+
+
+def pgen_cfg(reopen, tail, attempts, buf, apps, cycles, lens, rounds=1):
+    """FollowPoll_Gen: histories with the phase of the poller's round at which every operation lands."""
+    return ("INIT GInit\nNEXT GNext\nCONSTANTS Reopen = %s\n TailMode = %s\n InitLen = 2\n AppLens = %s\n MaxAppends = %d\n"
+            " MaxRemoves = %d\n MaxCreates = %d\n BufSize = %d\n ReadAttempts = %d\n Resume = \"readBytes\"\n MaxRounds = %d\n"
+            "INVARIANTS GenAgrees GHandleOK Dump\nCHECK_DEADLOCK FALSE\n" % (
+                b(reopen), b(tail), lens, apps, cycles, cycles, buf, attempts, rounds))
 
 
 def gen_cfg(poll, reopen, tail, apps, cycles, lens, starts=1, settles=1, drains=3):
@@ -46,6 +55,13 @@ CONTROLS = [
      notify_cfg(True, False, 2, 2, lens="{1}", branch="reopen", invs="PrefixOK", props=""), "PrefixOK"),
     ("FollowPoll", "control: without its side condition the poller loses data",
      poll_cfg(True, False, 3, 1, invs="PrefixAlways", props=""), "PrefixAlways"),
+    # the file STAYS IN PLACE (no removal at all) in the next three
+    ("FollowPoll", "control: resume-seek that does not reach the new handle re-delivers a file that only grew (stat window)",
+     poll_cfg(True, False, 3, 0, attempts=2, resume="none", invs="PrefixOK", props=""), "PrefixOK"),
+    ("FollowPoll", "control: resuming at the stat'ed size loses what was appended before the open",
+     poll_cfg(True, False, 3, 0, attempts=2, resume="size", invs="PrefixOK", props=""), "PrefixOK"),
+    ("FollowPoll", "control (reachability): a file that stays in place does go through the re-open block",
+     poll_cfg(True, False, 2, 0, attempts=3, invs="NeverReopensInPlace", props=""), "NeverReopensInPlace"),
 ]
 
 
@@ -79,6 +95,49 @@ def two_rotations_before_read(v):
     return False
 
 
+def where(v, st):
+    if st.get("pre"):
+        return "pre"
+    return "stat" if st.get("k", 0) >= v["attempts"] else "read"
+
+
+def phase_sig(v):
+    """placement class of a FollowPoll_Gen history: every environment operation with where it lands."""
+    return ",".join("%s@%s%s" % (st["op"], where(v, st), "" if st.get("pre") or st.get("r", 0) == 0 else "+")
+                    for st in v["steps"] if st["op"] in ("append", "remove", "create"))
+
+
+def inplace_stat(v):
+    """an append lands between the last read attempt of a round and the stat while the file stays in place."""
+    for st in v["steps"]:
+        if st["op"] == "remove":
+            return False
+        if st["op"] == "append" and where(v, st) == "stat":
+            return True
+    return False
+
+
+def stratified(rng, vs, n, key):
+    """n vectors, spread evenly over the classes given by key (round robin over shuffled classes)."""
+    groups = {}
+    for v in vs:
+        groups.setdefault(key(v), []).append(v)
+    keys = sorted(groups)
+    rng.shuffle(keys)
+    for k in keys:
+        rng.shuffle(groups[k])
+    out = []
+    while len(out) < n and keys:
+        for k in list(keys):
+            if groups[k]:
+                out.append(groups[k].pop())
+                if len(out) >= n:
+                    break
+            else:
+                keys.remove(k)
+    return out
+
+
 def shape_class(shape):
     """coarse, stable class of the operations since the last drain: used in violation signatures."""
     o, placement = shape.split("|")
@@ -98,6 +157,7 @@ def check(run):
         "poll + re-open: demands apply only while the re-created file stays shorter than what was delivered from its predecessor until the reader delivered a first byte of it (observable form of 'when the poller notices it'; the exact form is checked on FollowPoll's ghost)",
         "plain follow + poll: the end of the stream is demanded only while the path stays empty (a poller cannot see a removal that was followed by a re-creation); plain follow + inotify: always",
         "liveness on the real code: expected bytes within 10 s; an overrun counts only when it repeats on re-run of the same history",
+        "timing relative to the poller's round is imposed by timing (PollDelay 20 ms, operations in the middle of the chosen sleep; 250 ms end to end): the expectation does not depend on the phase, a missed phase only costs coverage (measured: b1_phase_stat_window_in_place)",
         "not covered: rename-based rotation, truncation, removal of a file with undelivered data, a path that does not exist when following starts",
     ]
     run.build_harness()
@@ -114,22 +174,41 @@ def check(run):
     # two removal/re-creation cycles (stale delete signals, a file that is never looked at)
     jobs.append(("FollowNotify", "notify reopen 2 cycles", notify_cfg(True, False, 3, 2 if quick else 3, lens="{1, 2}" if quick else "{1}"), False))
     jobs.append(("FollowPoll", "poll reopen 2 cycles", poll_cfg(True, False, 3, 2 if quick else 3, attempts=2 if quick else 3), False))
+    # a file that stays in place (no removal): every timing of the appends relative to the read attempts, the
+    # stat and the re-open block, for several lengths of the round incl. the production value
+    # (the configurations above have 2 read attempts per round and include the histories without removal)
+    for att, a in ((1, 4), (5, 2)) if quick else ((1, 6), (2, 6), (3, 5), (5, 4)):
+        jobs.append(("FollowPoll", "poll reopen in place attempts=%d apps=%d" % (att, a),
+                     poll_cfg(True, False, a, 0, attempts=att, buf=2 if att != 3 else 1), False))
+    if not quick:
+        jobs.append(("FollowPoll", "poll reopen tail in place attempts=3", poll_cfg(True, True, 6, 0, attempts=3, initlen=2), False))
     if not quick:
         jobs.append(("FollowNotify", "notify reopen apps=6 lens{1,2,3}", notify_cfg(True, False, 6, 1, lens="{1, 2, 3}"), False))
         jobs.append(("FollowPoll", "poll reopen apps=6 lens{1,2,3} attempts=5", poll_cfg(True, False, 6, 1, lens="{1, 2, 3}", attempts=5, initlen=3), False))
     gens = [(poll, reopen, tail) for poll in (False, True) for reopen in (True, False) for tail in (False, True)]
     # in plain follow the lengths of the appends play no role: one length keeps the generator small
     glens = lambda g: "{1, 2}" if (g[0] and g[1]) or not quick else "{1}"
-    pool = [lambda j=j: (j, run.tlc(j[0], j[2], workers=2, label=j[1], coverage=j[3], timeout=3000)) for j in jobs]
+    # FollowPoll_Gen: (reopen, tail, ReadAttempts, BufSize, appends, cycles, lengths, rounds)
+    pgens = [(True, False, 1, 2, 3, 1, "{1, 2}", 1), (True, False, 2, 4, 3, 1, "{1}", 1), (True, False, 3, 3, 2, 1, "{1, 2}", 1),
+             (True, True, 2, 4, 2, 1, "{1, 2}", 1), (False, False, 2, 4, 3, 1, "{1}", 1)]
+    if not quick:
+        pgens += [(False, True, 1, 4, 3, 1, "{1}", 1),
+                  (True, False, 2, 4, 3, 1, "{1, 2}", 1), (True, False, 3, 2, 3, 1, "{1, 2}", 1), (True, False, 5, 8, 2, 1, "{1, 2}", 1), (True, False, 2, 1, 3, 2, "{1}", 2),
+                  (True, True, 3, 4, 3, 1, "{1}", 1), (False, False, 3, 2, 3, 1, "{1}", 2), (True, False, 1, 1, 4, 1, "{1}", 2)]
+    W = 1 if quick else 2     # at most 6 TLC workers at a time
+    pool = [lambda j=j: (j, run.tlc(j[0], j[2], workers=W, label=j[1], coverage=j[3], timeout=3000)) for j in jobs]
     pool += [lambda g=g: run.tlc("Follow_Gen", gen_cfg(g[0], g[1], g[2], 3, 1, glens(g), drains=2 if quick and g[0] else 3),
-                                 workers=2, timeout=1200, label="Follow_Gen poll=%s reopen=%s tail=%s" % g) for g in gens]
-    pool += [lambda c=c: run.tlc(c[0], c[2], workers=2, label=c[1], timeout=600) for c in CONTROLS]
+                                 workers=W, timeout=1200, label="Follow_Gen poll=%s reopen=%s tail=%s" % g) for g in gens]
+    pool += [lambda c=c: run.tlc(c[0], c[2], workers=W, label=c[1], timeout=600) for c in CONTROLS]
     # two removal/re-creation cycles under inotify (stale delete signals)
-    pool += [lambda: run.tlc("Follow_Gen", gen_cfg(False, True, False, 2, 2, "{1}", drains=2 if quick else 3), workers=2, timeout=1200,
+    pool += [lambda: run.tlc("Follow_Gen", gen_cfg(False, True, False, 2, 2, "{1}", drains=2 if quick else 3), workers=W, timeout=1200,
                              label="Follow_Gen notify reopen 2 cycles")]
-    allres = parallel(pool, 4)
-    res, gres, cres = allres[:len(jobs)], allres[len(jobs):len(jobs) + len(gens)], allres[len(jobs) + len(gens):-1]
-    g2 = allres[-1]
+    pool += [lambda g=g: run.tlc("FollowPoll_Gen", pgen_cfg(*g), workers=W, timeout=1800,
+                                 label="FollowPoll_Gen reopen=%s tail=%s attempts=%d buf=%d apps=%d cycles=%d lens=%s rounds=%d" % g)
+             for g in pgens]
+    allres = parallel(pool, 6 if quick else 3)
+    n1, n2, n3 = len(jobs), len(jobs) + len(gens), len(jobs) + len(gens) + len(CONTROLS)
+    res, gres, cres, g2, pres = allres[:n1], allres[n1:n2], allres[n2:n3], allres[n3], allres[n3 + 1:]
     for j, r in res:
         require_clean(run, r, j[1])
         if j[3]:
@@ -172,6 +251,30 @@ def check(run):
     with open(vec_path, "w") as f:
         for v in chosen:
             f.write(json.dumps(v, separators=(",", ":")) + "\n")
+    # histories with the phase of the poller's round at which every operation lands (FollowPoll_Gen), spread evenly
+    # over the placement classes; half of them with an append in the stat window of a file that stays in place
+    per_phase = 72 if quick else 400
+    pvec_path = os.path.join(run.scratch, "c15-phase-vectors.ndjson")
+    ptotal, pchosen, pclasses = 0, [], set()
+    for g, r in zip(pgens, pres):
+        if r.violated or r.errors:
+            raise Inconclusive("FollowPoll_Gen %s: %s %s\n%s" % (g, r.violated, r.errors[:3], r.out[-2000:]))
+        vs = vfj_lines(r.out)
+        ptotal += len(vs)
+        if len(vs) < 200:
+            raise Inconclusive("FollowPoll_Gen produced only %d histories for %s" % (len(vs), g))
+        pclasses |= {phase_sig(v) for v in vs}
+        ip = [v for v in vs if inplace_stat(v)]
+        other = [v for v in vs if not inplace_stat(v)]
+        if g[0] and not ip:
+            raise Inconclusive("FollowPoll_Gen %s: no history with an append in the stat window of a file in place" % (g,))
+        k1 = min(len(ip), per_phase // 2) if g[0] else min(len(ip), per_phase // 4)
+        pchosen += stratified(rng, ip, k1, phase_sig) + stratified(rng, other, per_phase - k1, phase_sig)
+    with open(pvec_path, "w") as f:
+        for v in pchosen:
+            f.write(json.dumps(v, separators=(",", ":")) + "\n")
+    pres_path = os.path.join(run.scratch, "c15-phase.json")
+    p_trace = os.path.join(run.scratch, "c15-phase-trace.ndjson")
     res_path = os.path.join(run.scratch, "c15-replay.json")
     b1_trace = os.path.join(run.scratch, "c15-b1-trace.ndjson")
     tr = os.path.join(run.scratch, "c15-trace.ndjson")
@@ -185,7 +288,31 @@ def check(run):
         lambda: run.drv(["trace", "-out", tr, "-summary", sm, "-n", 250 if quick else 4000, "-maxops", 14 if quick else 30,
                          "-big", 120 if quick else 600, "-par", 16], timeout=3000),
         lambda: run.drv(["cli", "-out", cli, "-bin", rare_bin, "-n", 3 if quick else 25], timeout=3000),
-    ], 3)
+        lambda: run.drv(["phase", "-in", pvec_path, "-out", pres_path, "-trace", p_trace, "-reps", 1 if quick else 2,
+                         "-par", 32, "-pd", 20], timeout=3000),
+    ], 4)
+    pr = json.load(open(pres_path))
+    run.cov["traces_validated_against_impl"] += pr["runs"]
+    run.cov["evaluations"] += pr["runs"]
+    run.cov["distinct_nontrivial"] += pr["histories"]
+    run.cov["b1_phase_histories_enumerated"] = ptotal
+    run.cov["b1_phase_placement_classes"] = len(pclasses)
+    run.cov["b1_phase_histories_replayed"] = pr["histories"]
+    run.cov["b1_phase_unconfirmed_timeouts"] = pr["flaky_timeouts"]
+    # schedule fidelity (coverage only, never a verdict): re-opens of the path seen through inotify IN_OPEN
+    run.cov["b1_phase_stat_window_in_place"] = {
+        "planned": pr["stat_window_inplace_planned"], "measured": pr["stat_window_inplace_measured"],
+        "reader_reopened": pr["stat_window_inplace_reopened"],
+        "reopen_count_equals_model": "%d of %d" % (pr["reopen_count_as_model"], pr["reopen_measured"])}
+    if pchosen:
+        run.sample({"b1_phase_history": next((v for v in pchosen if inplace_stat(v)), pchosen[0])})
+    for m in pr["mismatches"] or []:
+        o, v = m["outcome"], m["vector"]
+        run.violation("b1:phase:%s:%s:%s" % (m["mode"], o["kind"], o["shape"] or "-"),
+                      "polling follow reader (%s, %d read attempts per round), history %s: %s at step %d after [%s] - %s; delivered %s, "
+                      "specification expects %s (%d of %d executions)" % (
+                          m["mode"], v["attempts"], phase_sig(v), o["kind"], o["step"], o["shape"], o["detail"], b2s(o["got"]),
+                          b2s(o["want"]), m["seen"], m["runs"]), m)
     res = json.load(open(res_path))
     run.cov["traces_validated_against_impl"] += res["runs"]
     run.cov["evaluations"] += res["runs"]
@@ -203,7 +330,7 @@ def check(run):
                           m["seen"], m["runs"]), m)
 
     # ------------------------------------------------------------------ B2: recorded executions vs Follow.tla
-    traces = [("b1", b1_trace)]
+    traces = [("b1", b1_trace), ("phase", p_trace)]
     summary = json.load(open(sm))
     run.cov["b2_random_recreations"] = summary["recreations"]
     run.cov["b2_unconfirmed_timeouts"] = summary["flaky_timeouts"]
@@ -214,11 +341,11 @@ def check(run):
         if not any('"event":"reset"' in line for line in open(path)):
             raise Inconclusive("no traces recorded (%s)" % name)
     vres = parallel([lambda n=name, p=path: validate_traces(run, "Follow_Trace", p, label="Follow_Trace " + n)
-                     for name, path in traces], 3)
+                     for name, path in traces], 4)
     for (name, path), (r_, r) in zip(traces, vres):
         ntr = sum(1 for line in open(path) if '"event":"reset"' in line)
         events += r_["consumed"]
-        if name != "b1":     # the b1 executions were counted above
+        if name not in ("b1", "phase"):     # the b1 executions were counted above
             run.cov["traces_validated_against_impl"] += ntr
             run.cov["evaluations"] += ntr
             run.cov["distinct_nontrivial"] += ntr
@@ -241,5 +368,6 @@ def check(run):
     run.cov["b2_events"] = events
     run.cov["rule"] = ("B3: all behaviours of FollowNotify/FollowPoll within the listed bounds; B1: histories enumerated by TLC from "
                        "Follow_Gen (seeded sample, half of them with removal+re-creation+append between two reads), each executed "
-                       "twice on real files, non-trivial = at least two environment operations; B2: every B1 execution, seeded "
+                       "twice on real files, non-trivial = at least two environment operations; histories from FollowPoll_Gen "
+                       "(every operation placed at a phase of the poller's round, sample spread over the placement classes); B2: every B1 execution, seeded "
                        "random multi-cycle histories and end-to-end runs, one trace each")
